@@ -416,6 +416,18 @@ func deadDecoderExit(l *natLoop, ex loopExit) bool {
 	if staticCalleeName(&call.Call) != "github.com/zmap/zcrypto/encoding/asn1.Unmarshal" || len(call.Call.Args) < 1 {
 		return false
 	}
+	// it decodes into a bare RawValue (any TLV), as the parser's own walk does — decoding
+	// into a structured type can fail where the parser succeeded
+	if len(call.Call.Args) < 2 {
+		return false
+	}
+	target := call.Call.Args[1]
+	if mi, ok := target.(*ssa.MakeInterface); ok {
+		target = mi.X
+	}
+	if !strings.HasSuffix(target.Type().String(), "zcrypto/encoding/asn1.RawValue") {
+		return false
+	}
 	// its input is the consumed slice: a header phi of the loop
 	phi, ok := call.Call.Args[0].(*ssa.Phi)
 	return ok && phi.Block() == l.header
